@@ -2,7 +2,7 @@
    (vm_compute) by harness/c19.py.  Case = L (A op :: args). *)
 From Coq Require Import ZArith List Bool String.
 From PTK Require Import Lib.Sx Lib.Py Lib.C19_Str Gen.C19_Palette
-     Model.C19_Palette Model.C19_Style Model.C19_Sgr.
+     Model.C19_Palette Model.C19_Style Model.C19_Sgr Model.C19_FromDict Model.C19_Transform Model.C19_Cache.
 Import ListNotations.
 Open Scope Z_scope.
 
@@ -50,6 +50,55 @@ Definition enc_state (s : sgr_state) : sx :=
      sx_bool (d_blink s); sx_bool (d_reverse s); sx_bool (d_hidden s)].
 
 Definition enc_fragment (f : fragment) : sx := L [sx_str (fst f); sx_str (snd f)].
+
+(* transformation trees: [0] swap, [1] reverse, [2 fg bg], [3 valid identity min max],
+   [4] dummy, [5 filter t], [6 [t...]], [7 [] | [t]] *)
+Fixpoint dec_transf (s : sx) : option transf :=
+  match s with
+  | L [A 0] => Some TSwap
+  | L [A 1] => Some TReverse
+  | L [A 2; fg; bg] =>
+      match as_str fg, as_str bg with Some f, Some b => Some (TSetDefault f b) | _, _ => None end
+  | L [A 3; v; i; A _; A _] =>
+      match as_bool v, as_bool i with Some v', Some i' => Some (TAdjust v' i') | _, _ => None end
+  | L [A 4] => Some TDummy
+  | L [A 5; f; t] =>
+      match as_bool f, dec_transf t with Some f', Some t' => Some (TCond f' t') | _, _ => None end
+  | L [A 6; L ts] =>
+      match (fix go (l : list sx) : option (list transf) :=
+               match l with
+               | [] => Some []
+               | x :: r => match dec_transf x, go r with
+                           | Some y, Some r' => Some (y :: r')
+                           | _, _ => None
+                           end
+               end) ts with
+      | Some l => Some (TMerged l)
+      | None => None
+      end
+  | L [A 7; L []] => Some (TDynamic None)
+  | L [A 7; L [t]] => match dec_transf t with Some t' => Some (TDynamic (Some t')) | None => None end
+  | _ => None
+  end.
+
+Definition dec_kernel (s : sx) : option (list (str * str)) :=
+  match s with L l => map_opt dec_rule l | _ => None end.
+
+Definition dec_query (s : sx) : option query :=
+  match s with
+  | L [A 0; A depth; a] => match dec_attrs a with Some a' => Some (QEsc depth a') | None => None end
+  | L [A 1; A bg; A r; A g; A b; L ex] =>
+      match map_opt as_str ex with Some ex' => Some (Q16 (negb (bg =? 0)) r g b ex') | None => None end
+  | L [A 2; A r; A g; A b] => Some (Q256 r g b)
+  | _ => None
+  end.
+
+Definition enc_answer (a : answer) : sx :=
+  match a with
+  | AStr s => sx_str s
+  | A16 c n => L [A c; sx_str n]
+  | A256 i => A i
+  end.
 
 Definition run_C19 (c : sx) : sx :=
   match c with
@@ -109,6 +158,22 @@ Definition run_C19 (c : sx) : sx :=
   | L [A 11; s] =>
       match as_str s with Some s' => sx_list sx_str (split_ws s') | None => bad_case end
   | L [A 12; A n] => L [sx_str (str_of_int n); sx_str (hex02 n)]
+  | L [A 14; A mp; items; style_str] =>
+      match dec_sheet items, as_str style_str with
+      | Some it, Some st => enc_res (from_dict_get (negb (mp =? 0)) it st DEFAULT_ATTRS)
+      | _, _ => bad_case
+      end
+  | L [A 15; t; a; opp; adj] =>
+      match dec_transf t, dec_attrs a, dec_kernel opp, dec_kernel adj with
+      | Some t', Some a', Some ko, Some ka =>
+          enc_res (transform (fun k => assoc k ko) (fun k => assoc k ka) t' a')
+      | _, _, _, _ => bad_case
+      end
+  | L [A 16; L qs] =>
+      match map_opt dec_query qs with
+      | Some qs' => sx_list enc_answer (run_queries EMPTY_W qs')
+      | None => bad_case
+      end
   | L [A 13; rules; style_str] =>
       match dec_sheet rules, as_str style_str with
       | Some rs, Some s =>
